@@ -72,6 +72,9 @@ func (t *T0x1210) Parse(jtMsg *jt808.JTMessage) error {
 	}
 	start := cursor
 	for i := 0; i < int(t.AttachCount); i++ {
+		if start >= len(body) {
+			return protocol.ErrBodyLengthInconsistency
+		}
 		fileNameLen := body[start]
 		if len(body) < start+1+int(fileNameLen)+4 {
 			return protocol.ErrBodyLengthInconsistency
